@@ -29,7 +29,7 @@ def represent_general_json(obj: GeneralJSONEncryption) -> GeneralJSONSerializati
     for recipient in obj.recipients:
         item: JSONRecipientDict = {}
         if recipient.header:
-            item["header"] = recipient.header
+            item["header"] = dict(recipient.header)
         if recipient.encrypted_key:
             item["encrypted_key"] = to_str(urlsafe_b64encode(recipient.encrypted_key))
         recipients.append(item)
@@ -42,7 +42,7 @@ def represent_flattened_json(obj: FlattenedJSONEncryption) -> FlattenedJSONSeria
     recipient = obj.recipients[0]
     assert recipient is not None
     if recipient.header:
-        data["header"] = recipient.header
+        data["header"] = dict(recipient.header)
     if recipient.encrypted_key:
         data["encrypted_key"] = to_str(urlsafe_b64encode(recipient.encrypted_key))
     return data  # type: ignore[no-any-return]
